@@ -1,5 +1,7 @@
 // C10 harness for the real Context / RuntimeContext / Token / Scope / Tracer::GetCurrentSpan
-// (header-only API, ASan+UBSan build against /repo's current sources).  Two modes:
+// (header-only API, built against /repo's current sources in TWO flavours: ASan+UBSan, whose quarantine never
+// hands a freed address out again, and plain -O1, where freed memory IS reused at once - see "allocator"
+// below).  Two modes:
 //
 //   replay <behaviours.ndjson>
 //       Each line is a behaviour printed by TLC from spec/Context.tla (plus the concretisation
@@ -11,7 +13,9 @@
 //         * the boolean returned by Detach
 //       are compared with the expectation computed by the spec.  `Drop` steps destroy the harness's
 //       handle to a context (the real object dies when nothing else refers to it); only LIVE handles
-//       are re-read.  One JSON result line per behaviour.  A watchdog (C10_WATCHDOG_S, default 20 s
+//       are re-read.  Token OBJECTS have their own lifetime: `Attach` stores the unique_ptr<Token> under
+//       the spec's token id, `Detach` uses exactly that object (it stays alive: it may be stale later),
+//       `TokenDtor` destroys it on the thread the spec names (the destructor detaches).  One JSON result line per behaviour.  A watchdog (C10_WATCHDOG_S, default 20 s
 //       per behaviour) turns a hang of the real code into a {"hang":true,"step":i} line + exit 3.
 //
 //   record <seed> <nexec> <nthreads> <maxops> <nk>
@@ -22,6 +26,13 @@
 //       The full GetValue table is re-read after every step; it is logged delta-encoded (an entry
 //       per (context,key) whose answer differs from what was logged before - for a correct
 //       implementation exactly the new context's row).
+//
+// Allocator (plain flavour only): a program must behave the same whatever addresses the allocator hands
+// out.  The plain build replaces operator new/delete: every allocation made INSIDE a call of the API under
+// test (ApiSection) is served from LIFO free lists per size class that are shared by all threads, so the
+// object created next gets the address of the same-sized object destroyed last (what glibc's tcache does
+// within one thread, made deterministic and independent of the harness's own allocations, which go to
+// malloc).  C10_ALLOC=libc switches the free lists off (plain glibc behaviour).
 //
 // Only the public API is used.  Concretisation tables (keys, values, spans) are documented in
 // design_notes/C10.md.  Caller-buffer discipline: every key lives in a heap buffer without NUL
@@ -54,6 +65,110 @@
 #include <vector>
 
 using json = nlohmann::json;
+
+// ------------------------------------------------------------------ allocator (see the header comment)
+#if defined(__SANITIZE_ADDRESS__)
+struct ApiSection
+{};
+static const char *kFlavour = "asan";
+#else
+#  include <cstdlib>
+#  include <new>
+namespace lifo
+{
+static const uint64_t kPool = 0x504f4f4c4c49464full, kLibc = 0x4c4942434c494243ull;
+struct Hdr
+{
+  uint64_t magic;
+  uint64_t cls;
+};
+static const size_t kClasses = 65;  // class i: requests of (16 * (i - 1), 16 * i] bytes, i <= 64
+static void *g_head[kClasses];
+static std::atomic_flag g_lock = ATOMIC_FLAG_INIT;
+static thread_local int t_api  = 0;
+static int g_mode              = -1;  // 1 = LIFO free lists, 0 = libc only
+static bool enabled()
+{
+  if (g_mode < 0)
+  {
+    const char *e = getenv("C10_ALLOC");
+    g_mode        = (e && std::strcmp(e, "libc") == 0) ? 0 : 1;
+  }
+  return g_mode == 1;
+}
+static void *get(size_t n)
+{
+  size_t cls = (n + 15) / 16;
+  if (cls == 0)
+    cls = 1;
+  if (t_api > 0 && cls < kClasses && enabled())
+  {
+    while (g_lock.test_and_set(std::memory_order_acquire))
+    {}
+    void *p = g_head[cls];
+    if (p)
+      g_head[cls] = *static_cast<void **>(p);
+    g_lock.clear(std::memory_order_release);
+    if (p)
+      return p;  // (its header is still in place)
+    Hdr *h = static_cast<Hdr *>(std::malloc(sizeof(Hdr) + cls * 16));
+    if (!h)
+      abort();
+    h->magic = kPool;
+    h->cls   = cls;
+    return h + 1;
+  }
+  Hdr *h = static_cast<Hdr *>(std::malloc(sizeof(Hdr) + (n ? n : 1)));
+  if (!h)
+    abort();
+  h->magic = kLibc;
+  h->cls   = 0;
+  return h + 1;
+}
+static void put(void *p)
+{
+  if (!p)
+    return;
+  Hdr *h = static_cast<Hdr *>(p) - 1;
+  if (h->magic == kPool)
+  {
+    while (g_lock.test_and_set(std::memory_order_acquire))
+    {}
+    *static_cast<void **>(p) = g_head[h->cls];
+    g_head[h->cls]           = p;
+    g_lock.clear(std::memory_order_release);
+  }
+  else if (h->magic == kLibc)
+  {
+    h->magic = 0;
+    std::free(h);
+  }
+  else
+  {
+    abort();  // not ours / double free
+  }
+}
+}  // namespace lifo
+void *operator new(size_t n) { return lifo::get(n); }
+void *operator new[](size_t n) { return lifo::get(n); }
+void *operator new(size_t n, const std::nothrow_t &) noexcept { return lifo::get(n); }
+void *operator new[](size_t n, const std::nothrow_t &) noexcept { return lifo::get(n); }
+void operator delete(void *p) noexcept { lifo::put(p); }
+void operator delete[](void *p) noexcept { lifo::put(p); }
+void operator delete(void *p, size_t) noexcept { lifo::put(p); }
+void operator delete[](void *p, size_t) noexcept { lifo::put(p); }
+void operator delete(void *p, const std::nothrow_t &) noexcept { lifo::put(p); }
+void operator delete[](void *p, const std::nothrow_t &) noexcept { lifo::put(p); }
+// RAII marker: the code inside is a call of the API under test
+struct ApiSection
+{
+  ApiSection() { ++lifo::t_api; }
+  ~ApiSection() { --lifo::t_api; }
+  ApiSection(const ApiSection &)            = delete;
+  ApiSection &operator=(const ApiSection &) = delete;
+};
+static const char *kFlavour = "plain";
+#endif
 namespace ctxapi = opentelemetry::context;
 namespace trace  = opentelemetry::trace;
 namespace nostd  = opentelemetry::nostd;
@@ -353,7 +468,7 @@ static bool ReplayOne(const json &beh, Mismatch &mm, long &checks)
   std::vector<char> live;     // does the program still hold the handle ctxs[id]?
   ctxs.emplace_back();
   live.push_back(1);
-  std::map<int, std::vector<nostd::unique_ptr<Token>>> toks;
+  std::map<int, nostd::unique_ptr<Token>> toks;  // key = the spec's token id: token OBJECTS live until TokenDtor
   std::map<int, std::unique_ptr<trace::Scope>> scopes;
   bool ok = true;
   {
@@ -386,6 +501,7 @@ static bool ReplayOne(const json &beh, Mismatch &mm, long &checks)
             int how = static_cast<int>(rng() % 3);
             if (how == 2 && !(RuntimeContext::GetCurrent() == parent))
               how = 0;
+            ApiSection api;
             if (how == 0)
               made = parent.SetValue(kb.view(), v);
             else if (how == 1)
@@ -412,7 +528,10 @@ static bool ReplayOne(const json &beh, Mismatch &mm, long &checks)
               std::map<std::string, ContextValue> c;
               for (auto &e : kvs)
                 c[KeyBytes(e.first, kv)] = vals.make(e.second);
-              made = parent.SetValues(c);
+              {
+                ApiSection api;
+                made = parent.SetValues(c);
+              }
               for (auto &e : c)
                 e.second = ContextValue(static_cast<int64_t>(-1));
               break;
@@ -421,7 +540,10 @@ static bool ReplayOne(const json &beh, Mismatch &mm, long &checks)
               std::unordered_map<std::string, ContextValue> c;
               for (auto &e : kvs)
                 c[KeyBytes(e.first, kv)] = vals.make(e.second);
-              made = parent.SetValues(c);
+              {
+                ApiSection api;
+                made = parent.SetValues(c);
+              }
               for (auto &e : c)
                 e.second = ContextValue(static_cast<int64_t>(-1));
               break;
@@ -430,7 +552,10 @@ static bool ReplayOne(const json &beh, Mismatch &mm, long &checks)
               std::vector<std::pair<std::string, ContextValue>> c;
               for (auto &e : kvs)
                 c.emplace_back(KeyBytes(e.first, kv), vals.make(e.second));
-              made = parent.SetValues(c);
+              {
+                ApiSection api;
+                made = parent.SetValues(c);
+              }
               for (auto &e : c)
               {
                 e.first.assign(e.first.size(), '#');
@@ -446,7 +571,10 @@ static bool ReplayOne(const json &beh, Mismatch &mm, long &checks)
                 bufs.emplace_back(new KeyBuf(KeyBytes(e.first, kv)));
                 c.emplace_back(bufs.back()->view(), vals.make(e.second));
               }
-              made = parent.SetValues(c);
+              {
+                ApiSection api;
+                made = parent.SetValues(c);
+              }
               break;
             }
           }
@@ -455,48 +583,96 @@ static bool ReplayOne(const json &beh, Mismatch &mm, long &checks)
         }
         else if (op == "Attach")
         {
-          int c = st.at("c").get<int>();
-          toks[c].push_back(RuntimeContext::Attach(ctxs.at(static_cast<size_t>(c))));
-          if (!toks[c].back())
+          int c  = st.at("c").get<int>();
+          int tk = st.at("tk").get<int>();
+          if (toks.count(tk))
+          {
+            fail("harness: token id used twice", tk, nullptr);
+            return;
+          }
+          nostd::unique_ptr<Token> made;
+          {
+            ApiSection api;
+            made = RuntimeContext::Attach(ctxs.at(static_cast<size_t>(c)));
+          }
+          if (!made)
             fail("Attach returned a null token", 1, 0);
+          toks[tk] = std::move(made);
         }
         else if (op == "Detach")
         {
-          int c    = st.at("c").get<int>();
-          auto &v  = toks[c];
-          if (v.empty())
+          // exactly the token object the spec names; it stays alive (it may be used again, as a stale token)
+          auto it = toks.find(st.at("tk").get<int>());
+          if (it == toks.end())
           {
-            fail("harness: no token for context", c, nullptr);
+            fail("harness: no such token object", st.at("tk"), nullptr);
             return;
           }
-          Token &tk = *v[rng() % v.size()];
-          bool r    = RuntimeContext::Detach(tk);
-          int e     = st.at("ok").get<int>();
+          bool r;
+          {
+            ApiSection api;
+            r = RuntimeContext::Detach(*it->second);
+          }
+          int e = st.at("ok").get<int>();
           ++checks;
           if (e != 2 && (e == 1) != r)
             fail("Detach result", e == 1, r);
+        }
+        else if (op == "TokenDtor")
+        {
+          // the program destroys the token object, on this thread: ~Token detaches
+          auto it = toks.find(st.at("tk").get<int>());
+          if (it == toks.end())
+          {
+            fail("harness: no such token object", st.at("tk"), nullptr);
+            return;
+          }
+          nostd::unique_ptr<Token> victim = std::move(it->second);
+          toks.erase(it);
+          {
+            ApiSection api;
+            victim.reset();
+          }
         }
         else if (op == "ScopeEnter")
         {
           int s   = st.at("v").get<int>() - 100;
           auto sp = vals.spans.at(static_cast<size_t>(s));
-          if (rng() % 2)
-            scopes[st.at("n").get<int>()].reset(new trace::Scope(sp));
-          else
-            scopes[st.at("n").get<int>()].reset(new trace::Scope(trace::Tracer::WithActiveSpan(sp)));
+          auto &slot = scopes[st.at("n").get<int>()];
+          {
+            ApiSection api;
+            if (rng() % 2)
+              slot.reset(new trace::Scope(sp));
+            else
+              slot.reset(new trace::Scope(trace::Tracer::WithActiveSpan(sp)));
+          }
           ctxs.push_back(RuntimeContext::GetCurrent());
           live.push_back(1);
         }
         else if (op == "ScopeExit")
         {
-          scopes.erase(st.at("c").get<int>());
+          auto it = scopes.find(st.at("c").get<int>());
+          if (it == scopes.end())
+          {
+            fail("harness: no such scope", st.at("c"), nullptr);
+            return;
+          }
+          std::unique_ptr<trace::Scope> victim = std::move(it->second);
+          scopes.erase(it);
+          {
+            ApiSection api;
+            victim.reset();
+          }
         }
         else if (op == "Drop")
         {
           // the program lets go of its handle: the real object dies unless a stack slot, a token, a
           // scope or (through shared list nodes) nothing else keeps it
           size_t c = st.at("c").get<size_t>();
-          ctxs.at(c) = Context();
+          {
+            ApiSection api;
+            ctxs.at(c) = Context();
+          }
           live.at(c) = 0;
         }
         else if (op == "End")
@@ -592,6 +768,7 @@ static bool ReplayOne(const json &beh, Mismatch &mm, long &checks)
     }
     // scopes / tokens die before the worker threads (the order is irrelevant for the check)
     workers[0]->run([&] {
+      ApiSection api;
       scopes.clear();
       toks.clear();
     });
@@ -640,6 +817,14 @@ namespace rec
 std::mutex g_log_m;
 std::vector<std::string> g_log;  // merged, in ticket order
 int g_next_id = 0;               // global context ids, assigned at log time (== spec's NCtx + 1)
+int g_next_tok = 0;              // global token-object ids, assigned at log time (== spec's Len(tok) + 1)
+
+struct Tok
+{
+  int ctx;  // global id of the context it was returned for
+  int tk;   // global token id
+  nostd::unique_ptr<Token> p;
+};
 
 struct Known
 {
@@ -657,15 +842,18 @@ struct Prog
   std::mt19937_64 rng;
   std::vector<Known> known;  // pool + own
   size_t npool = 0;          // known[0..npool) are copies of the shared pool (never dropped)
-  std::vector<std::pair<int, nostd::unique_ptr<Token>>> toks;   // (global ctx id, token) own tokens
-  std::vector<std::pair<int, Token *>> foreign;                 // tokens owned by the main thread
+  std::vector<Tok> toks;        // own token objects: kept after Detach (stale), destroyed by TokenDtor steps
+  std::vector<Tok *> foreign;   // token objects owned by the main thread
+  std::vector<int> script;      // pending steps of a stale-token pattern (see step())
+  int script_tk = 0, script_ctx = 0;
   std::vector<std::pair<int, std::unique_ptr<trace::Scope>>> scopes;
   int depth_est = 0;
 
   int pick(size_t n) { return static_cast<int>(rng() % n); }
 
-  // observation + logging of one event; `creates`: index in `known` of the context created by the step
-  void log(json ev, int creates)
+  // observation + logging of one event; `creates`: index in `known` of the context created by the step,
+  // `newtok`: the token object created by the step
+  void log(json ev, int creates, Tok *newtok = nullptr)
   {
     // current context identity among everything this thread can know
     Context cur = RuntimeContext::GetCurrent();
@@ -688,6 +876,11 @@ struct Prog
     {
       known[static_cast<size_t>(creates)].id = ++g_next_id;
       ev["n"]                                 = g_next_id;
+    }
+    if (newtok)
+    {
+      newtok->tk = ++g_next_tok;
+      ev["tk"]   = newtok->tk;
     }
     ev["t"]    = t;
     ev["cur"]  = first < 0 ? 0 : known[static_cast<size_t>(first)].id;  // (0, 0): equal to no live handle
@@ -735,11 +928,168 @@ struct Prog
     return static_cast<int>(known.size() - 1);
   }
 
+  // ---- the operations (each one real call + one logged event)
+  void op_drop(size_t i)
+  {
+    Known &k = known[i];
+    int id   = k.id;
+    {
+      ApiSection api;
+      k.ctx = Context();
+    }
+    k.dead = true;
+    log(json{{"e", "Drop"}, {"c", id}}, -1);
+  }
+  int op_setvalue(Known &par)
+  {
+    int pid = par.id;
+    int k   = 1 + pick(static_cast<size_t>(nk));
+    int v   = (pick(5) == 0) ? 100 + 1 + pick(6) : (pick(7) == 0 ? 99 : 1 + pick(12));
+    Context made;
+    {
+      KeyBuf kb(KeyBytes(k, kv));
+      Context parent = par.ctx;
+      bool how       = pick(2) == 0;
+      ApiSection api;
+      made = how ? parent.SetValue(kb.view(), vals->make(v)) : RuntimeContext::SetValue(kb.view(), vals->make(v), &parent);
+    }
+    int idx = add_known(made);
+    log(json{{"e", "SetValue"}, {"p", pid}, {"k", k}, {"v", v}}, idx);
+    return idx;
+  }
+  void op_attach(Known &k)
+  {
+    int id = k.id;
+    toks.reserve(toks.size() + 1);
+    nostd::unique_ptr<Token> made;
+    {
+      ApiSection api;
+      made = RuntimeContext::Attach(k.ctx);
+    }
+    toks.push_back(Tok{id, 0, std::move(made)});
+    ++depth_est;
+    log(json{{"e", "Attach"}, {"c", id}}, -1, &toks.back());
+  }
+  void op_detach(Tok &tk)
+  {
+    bool ok;
+    {
+      ApiSection api;
+      ok = RuntimeContext::Detach(*tk.p);
+    }
+    log(json{{"e", "Detach"}, {"tk", tk.tk}, {"c", tk.ctx}, {"ok", ok ? 1 : 0}}, -1);
+  }
+  // the program destroys one of its token objects (attached, detached long ago, ...): ~Token detaches
+  void op_tokdtor(size_t i)
+  {
+    Tok victim = std::move(toks[i]);
+    toks.erase(toks.begin() + static_cast<long>(i));
+    {
+      ApiSection api;
+      victim.p.reset();
+    }
+    log(json{{"e", "TokenDtor"}, {"tk", victim.tk}, {"c", victim.ctx}}, -1);
+  }
+  long find_tok(int tk) const
+  {
+    for (size_t i = 0; i < toks.size(); ++i)
+      if (toks[i].tk == tk)
+        return static_cast<long>(i);
+    return -1;
+  }
+  long find_known(int id) const
+  {
+    for (size_t i = 0; i < known.size(); ++i)
+      if (known[i].id == id && !known[i].dead)
+        return static_cast<long>(i);
+    return -1;
+  }
+
+  // A token object outlives what it was created for: [detach it,] drop every handle of its context
+  // [or the other way round], create a NEW context right away (the same kind of allocation), attach
+  // that one, and only then detach / destroy the old token object.  Plain operations, each logged; the
+  // spec decides what every one of them must do (the old token is stale only if its context is on no
+  // stack any more).
+  enum { S_DETACH = 1, S_DROP, S_NEWCTX, S_FINAL };
+  bool start_script()
+  {
+    std::vector<size_t> cand;  // own tokens whose context is an own context this thread still holds
+    for (size_t i = 0; i < toks.size(); ++i)
+    {
+      long k = find_known(toks[i].ctx);
+      if (k >= static_cast<long>(npool))
+        cand.push_back(i);
+    }
+    if (cand.empty())
+      return false;
+    Tok &t     = toks[cand[static_cast<size_t>(pick(cand.size()))]];
+    script_tk  = t.tk;
+    script_ctx = t.ctx;
+    switch (pick(3))
+    {
+      case 0:
+        script = {S_FINAL, S_NEWCTX, S_DROP, S_DETACH};  // (executed from the back)
+        break;
+      case 1:
+        script = {S_FINAL, S_NEWCTX, S_DETACH, S_DROP};
+        break;
+      default:
+        script = {S_FINAL, S_NEWCTX, S_DROP};
+        break;
+    }
+    return true;
+  }
+  void script_step()
+  {
+    int what = script.back();
+    script.pop_back();
+    long ti = find_tok(script_tk);
+    if (ti < 0)
+    {
+      script.clear();
+      return;
+    }
+    switch (what)
+    {
+      case S_DETACH:
+        op_detach(toks[static_cast<size_t>(ti)]);
+        break;
+      case S_DROP: {
+        long k = find_known(script_ctx);
+        if (k >= static_cast<long>(npool))
+          op_drop(static_cast<size_t>(k));
+        break;
+      }
+      case S_NEWCTX: {
+        int idx = op_setvalue(pick_live());
+        op_attach(known[static_cast<size_t>(idx)]);
+        break;
+      }
+      default:
+        if (pick(2))
+          op_detach(toks[static_cast<size_t>(ti)]);
+        else
+          op_tokdtor(static_cast<size_t>(ti));
+        break;
+    }
+  }
+
   void step(bool grow)
   {
-    int r = pick(108);
+    if (!script.empty())
+    {
+      script_step();
+      return;
+    }
+    int r = pick(112);
     // operation mix: while growing attaches dominate, afterwards detaches do
     int p_set = 18, p_sets = 8, p_att = grow ? 46 : 14, p_scope = grow ? 14 : 6, p_det = grow ? 6 : 40;
+    if (r >= 108)
+    {
+      if (start_script())
+        script_step();
+      return;
+    }
     if (r >= 100)
     {
       // drop the handle to one of this thread's own contexts - leaf, middle of a chain or root,
@@ -750,28 +1100,12 @@ struct Prog
           own.push_back(i);
       if (own.empty())
         return;
-      Known &k = known[own[static_cast<size_t>(pick(own.size()))]];
-      int id   = k.id;
-      k.ctx    = Context();
-      k.dead   = true;
-      log(json{{"e", "Drop"}, {"c", id}}, -1);
+      op_drop(own[static_cast<size_t>(pick(own.size()))]);
       return;
     }
     if (r < p_set)
     {
-      Known &par = pick_live();
-      int pid    = par.id;
-      int k      = 1 + pick(static_cast<size_t>(nk));
-      int v      = (pick(5) == 0) ? 100 + 1 + pick(6) : (pick(7) == 0 ? 99 : 1 + pick(12));
-      Context made;
-      {
-        KeyBuf kb(KeyBytes(k, kv));
-        Context parent = par.ctx;
-        made           = (pick(2) == 0) ? parent.SetValue(kb.view(), vals->make(v))
-                                        : RuntimeContext::SetValue(kb.view(), vals->make(v), &parent);
-      }
-      int idx = add_known(made);
-      log(json{{"e", "SetValue"}, {"p", pid}, {"k", k}, {"v", v}}, idx);
+      op_setvalue(pick_live());
     }
     else if (r < p_set + p_sets)
     {
@@ -795,11 +1129,13 @@ struct Prog
       Context made;
       if (pick(2))
       {
+        ApiSection api;
         made = parent.SetValues(c);
       }
       else
       {
         std::map<std::string, ContextValue> mm(c.begin(), c.end());
+        ApiSection api;
         made = parent.SetValues(mm);
       }
       for (auto &e : c)
@@ -809,16 +1145,16 @@ struct Prog
     }
     else if (r < p_set + p_sets + p_att)
     {
-      Known &k = pick_live();
-      int id   = k.id;
-      toks.emplace_back(id, RuntimeContext::Attach(k.ctx));
-      ++depth_est;
-      log(json{{"e", "Attach"}, {"c", id}}, -1);
+      op_attach(pick_live());
     }
     else if (r < p_set + p_sets + p_att + p_scope)
     {
       int s = 1 + pick(6);
-      std::unique_ptr<trace::Scope> sc(new trace::Scope(vals->spans[static_cast<size_t>(s)]));
+      std::unique_ptr<trace::Scope> sc;
+      {
+        ApiSection api;
+        sc.reset(new trace::Scope(vals->spans[static_cast<size_t>(s)]));
+      }
       int idx = add_known(RuntimeContext::GetCurrent());
       ++depth_est;
       log(json{{"e", "ScopeEnter"}, {"s", s}}, idx);
@@ -827,25 +1163,28 @@ struct Prog
     else if (r < p_set + p_sets + p_att + p_scope + p_det)
     {
       // a token: mostly a recent own one (top-ish), sometimes any own one (out of order / stale),
-      // sometimes one owned by the main thread (foreign)
+      // sometimes one owned by the main thread (foreign); mostly detached (the object lives on),
+      // sometimes destroyed
       int how = pick(10);
       if (how == 0 && !foreign.empty())
       {
-        auto &f = foreign[static_cast<size_t>(pick(foreign.size()))];
-        bool ok = RuntimeContext::Detach(*f.second);
-        log(json{{"e", "Detach"}, {"c", f.first}, {"ok", ok ? 1 : 0}}, -1);
+        op_detach(*foreign[static_cast<size_t>(pick(foreign.size()))]);
       }
       else if (!toks.empty())
       {
         size_t i = (how < 7) ? toks.size() - 1 - static_cast<size_t>(pick(std::min<size_t>(toks.size(), 3)))
                              : static_cast<size_t>(pick(toks.size()));
-        bool ok  = RuntimeContext::Detach(*toks[i].second);
-        log(json{{"e", "Detach"}, {"c", toks[i].first}, {"ok", ok ? 1 : 0}}, -1);
+        if (pick(4) == 0)
+        {
+          op_tokdtor(i);
+          return;
+        }
+        op_detach(toks[i]);
         // mostly forget a used token's slot in the "recent" order (keep it alive: it may be
-        // detached again later as a stale token)
+        // detached again or destroyed later, as a stale token)
         if (pick(3))
         {
-          auto tk = std::move(toks[i]);
+          Tok tk = std::move(toks[i]);
           toks.erase(toks.begin() + static_cast<long>(i));
           toks.insert(toks.begin(), std::move(tk));
         }
@@ -855,8 +1194,12 @@ struct Prog
     {
       size_t i = (pick(4) == 0) ? static_cast<size_t>(pick(scopes.size())) : scopes.size() - 1;
       int id   = scopes[i].first;
-      scopes[i].second.reset();
+      std::unique_ptr<trace::Scope> victim = std::move(scopes[i].second);
       scopes.erase(scopes.begin() + static_cast<long>(i));
+      {
+        ApiSection api;
+        victim.reset();
+      }
       log(json{{"e", "ScopeExit"}, {"c", id}}, -1);
     }
   }
@@ -869,7 +1212,8 @@ static void RunExec(uint64_t seed, int nthreads, int maxops, int nk)
   vals.variant = static_cast<int>(rng() % 4);
   int kv       = static_cast<int>(rng() % 4);
   g_log.clear();
-  g_next_id = 0;
+  g_next_id  = 0;
+  g_next_tok = 0;
   if (g_wd)
     g_wd->arm(static_cast<long>(seed % 1000000));
   int mainT = nthreads + 1;
@@ -892,9 +1236,8 @@ static void RunExec(uint64_t seed, int nthreads, int maxops, int nk)
   }
   for (int i = 0; i < 3; ++i)
   {
-    Known &k = mainp.known[static_cast<size_t>(1 + mainp.pick(mainp.known.size() - 1))];
-    mainp.toks.emplace_back(k.id, RuntimeContext::Attach(k.ctx));
-    mainp.log(json{{"e", "Attach"}, {"c", k.id}}, -1);
+    mainp.toks.reserve(8);  // (the workers keep pointers to these token objects)
+    mainp.op_attach(mainp.known[static_cast<size_t>(1 + mainp.pick(mainp.known.size() - 1))]);
   }
   std::vector<std::unique_ptr<Prog>> progs;
   for (int t = 1; t <= nthreads; ++t)
@@ -905,7 +1248,7 @@ static void RunExec(uint64_t seed, int nthreads, int maxops, int nk)
       p.known.push_back(Known{k.ctx, k.id, k.lastvals});
     p.npool = p.known.size();
     for (auto &tk : mainp.toks)
-      p.foreign.emplace_back(tk.first, tk.second.get());
+      p.foreign.push_back(&tk);
   }
   std::atomic<int> go{0};
   std::vector<std::thread> ths;
@@ -943,9 +1286,7 @@ static void RunExec(uint64_t seed, int nthreads, int maxops, int nk)
   for (auto &th : ths)
     th.join();
   // the main thread's own view must be untouched by whatever the workers did
-  mainp.log(json{{"e", "Detach"}, {"c", mainp.toks.back().first},
-                 {"ok", RuntimeContext::Detach(*mainp.toks.back().second) ? 1 : 0}},
-            -1);
+  mainp.op_detach(mainp.toks.back());
   if (g_wd)
     g_wd->disarm();
   for (auto &l : g_log)
@@ -954,7 +1295,7 @@ static void RunExec(uint64_t seed, int nthreads, int maxops, int nk)
   // unwind the main thread completely for the next execution
   while (!mainp.toks.empty())
   {
-    RuntimeContext::Detach(*mainp.toks.front().second);
+    RuntimeContext::Detach(*mainp.toks.front().p);
     mainp.toks.erase(mainp.toks.begin());
   }
   if (!(RuntimeContext::GetCurrent() == Context()))
